@@ -96,7 +96,7 @@ func golangTrackerLocalName(tracker namer.ImportTracker, t types.Name) string {
 // legal Go package name.  Underscores are dropped (kube convention), as is
 // everything else which commonly appears in import paths but is not legal in a
 // Go name ('.', '-', '~', '+', ...).  A name which is empty, starts with a
-// digit or is a Go keyword is made legal.
+// digit, is a Go keyword or is "init" is made legal.
 func importName(s string) string {
 	name := strings.Map(func(r rune) rune {
 		if unicode.IsLetter(r) || unicode.IsDigit(r) {
@@ -109,7 +109,9 @@ func importName(s string) string {
 	}
 	// (Before looking for collisions: two packages whose names are the
 	// same keyword must not both be called "_keyword".)
-	if first, _ := utf8.DecodeRuneInString(name); unicode.IsDigit(first) || token.Lookup(name).IsKeyword() {
+	// ("init" is no keyword, but no package can be imported under that name
+	// either: "cannot import package as init - init must be a func".)
+	if first, _ := utf8.DecodeRuneInString(name); unicode.IsDigit(first) || token.Lookup(name).IsKeyword() || name == "init" {
 		name = "_" + name
 	}
 	return name
